@@ -243,7 +243,8 @@ def check_units(prog, rep):
         return isinstance(e, ast.Subscript) and const(e.slice) == 0 and from_tokens(e.value)
     for i in [n for n in body if isinstance(n, ast.If) and any(isinstance(x, ast.Raise) for x in n.body)]:
         env = straightline_env(body, upto=i)
-        t = inline(i.test, env)
+        from ..astutil import literalise
+        t = literalise(inline(i.test, env))
         txt = norm(t).replace(' ', '')
         try:
             unit_expr = None
